@@ -83,7 +83,7 @@ func evNLayer(t *Tracer, w Win, ids []ID, hl, vl int64) {
 	o, res := guard(func() (any, error) {
 		return operated.GetNspatialIdsAroundVoxcels(real, hl, vl)
 	})
-	e := w.ev("NLayer", map[string]any{"ids": idsArr(ids), "hl": hl, "vl": vl, "kept": sameStrings(real, snap)})
+	e := w.ev("NLayer", map[string]any{"ids": idsArr(ids), "hl": hl, "vl": vl, "kept": intact(real, snap)})
 	e.O, e.Real = o, map[string]any{"ids": snap, "hl": hl, "vl": vl}
 	e.R = []any{}
 	if o != "panic" {
